@@ -26,6 +26,8 @@ def run(rep, fb, tier):
     guards.rule_getitem_at(rep, fb)
     guards.rule_division(rep, fb)
     guards.rule_const_subscript(rep, fb)
+    from ..rules import kbound
+    kbound.rule_kbound(rep, fb)
     from ..rules import pyrules
     pyrules.rule_py_borrowed(rep, ["_util.py", "operations/structure.py", "operations/convert.py", "highlevel.py", "_connect/_numpy.py", "partition.py", "behaviors/string.py",
                                    "behaviors/categorical.py", "operations/reducers.py", "operations/describe.py"], floor=20)
